@@ -8,6 +8,7 @@ import importlib
 import itertools
 
 from symx.core import AND, OR, NOT, IMPLIES, ITE, IFF, SNum, SBool
+from symx.stubs import namer
 
 PROPERTY = "C14"
 FILES = ["solvor/scc.py", "solvor/types.py"]
@@ -44,7 +45,7 @@ def h_scc(s, func, n, pot, order, rev=False, labels=False, dup=False, outside=0,
     mod = importlib.import_module("solvor.scc")
     N = n + outside
     p = {a: s.bool("p%d_%d" % a) for a in pot}
-    name = (lambda u: "v%d" % u) if labels else (lambda u: u)
+    name = namer(labels, "v")
     inv = {name(u): u for u in range(N)}
 
     def neighbors(x):
@@ -163,7 +164,7 @@ def items(tier, rng):
             for rev in (False, True):
                 out.append({"name": "%s_3" % func, "harness": "h_scc",
                             "params": {"func": func, "n": 3, "pot": pot3, "order": list(order), "rev": rev,
-                                       "labels": order[0] == 2 and rev}})
+                                       "labels": ("str" if rev else "opaque") if order[0] == 2 else False}})
         orders4 = [[0, 1, 2, 3], [2, 0, 3, 1]] + ([] if q else [[3, 2, 1, 0], [1, 3, 0, 2]])
         for order in orders4:
             out.append({"name": "%s_4" % func, "harness": "h_scc", "split": 8,
